@@ -210,6 +210,11 @@ class Check:
                 return
         os.makedirs(REPLAYS, exist_ok=True)
         n = len(self.violations)
+        if n >= 12:
+            # enough confirmed violations to report; further ones are counted but not replayed one by one
+            self.more_violations = getattr(self, 'more_violations', 0) + 1
+            rec['not_replayed'] = True
+            return
         fn = os.path.join(REPLAYS, '%s-%d.json' % (self.pid, n))
         confirmed = None; native = None
         if path.steps and not os.environ.get('VERIF_NO_REPLAY'):
@@ -284,6 +289,8 @@ class Check:
         for oid, fn, key in self.violations:
             print('VIOLATION property=%s replay=%s' % (self.pid, fn))
             print('  obligation %s at %s' % (oid, key))
+        if getattr(self, 'more_violations', 0):
+            print('  (+%d further satisfiable obligations not replayed individually)' % self.more_violations)
         print('%s %s: %d paths, %d obligations (%d unsat, %d sat, %d unknown), %d known findings, %.1fs'
               % (self.pid, self.tier, self.paths_total, len(self.oblig), nun,
                  sum(1 for o in self.oblig if o['verdict'] == 'sat'), sum(1 for o in self.oblig if o['verdict'] == 'unknown'),
